@@ -31,8 +31,9 @@ type blkSpec struct {
 type blkOpts struct {
 	L        int
 	TermAll  bool
-	BigData  bool // allow contributions up to 70000 bytes
+	BigData  bool // allow contributions up to 70000 bytes (one in MaxBig)
 	MaxBig   int
+	Light    bool // short contributions only (keeps the model's list-based decoder fast)
 	Variants bool // Single / Passes variants (correspondence only, no round-trip oracle)
 }
 
@@ -57,6 +58,9 @@ func genBlock(r *Rand, o blkOpts, cbx, cby, band int) blkSpec {
 		return b
 	}
 	b.First = r.Range(0, L)
+	if L >= 999 && r.Bool() {
+		b.First = r.Range(996, L)
+	}
 	switch r.Intn(6) {
 	case 0:
 		b.First = 0
@@ -76,7 +80,7 @@ func genBlock(r *Rand, o blkOpts, cbx, cby, band int) blkSpec {
 		case l == b.First:
 			np = r.Range(1, 6)
 		default:
-			if r.Intn(3) != 0 {
+			if r.Intn(3) != 0 && (L < 999 || r.Intn(60) == 0) {
 				np = r.Range(1, 6)
 			}
 		}
@@ -94,10 +98,16 @@ func genBlock(r *Rand, o blkOpts, cbx, cby, band int) blkSpec {
 			case 0:
 			case 1:
 				dl = r.Range(200, 4100)
+				if o.Light {
+					dl = r.Range(13, 40)
+				}
 			case 2:
 				dl = r.Pick(1, 7, 8, 15, 16, 255, 256, 257)
 			default:
 				dl = r.Range(1, 40)
+				if o.Light {
+					dl = r.Range(1, 12)
+				}
 			}
 			if o.BigData && r.Intn(o.MaxBig) == 0 {
 				dl = r.Pick(65535, 65536, 70000, 32768, r.Range(20000, 70000))
@@ -276,8 +286,15 @@ func genHdrCase(r *Rand, i int) hdrCase {
 	if i%25 == 0 {
 		k.L = r.Range(9, 40)
 	}
-	o := blkOpts{L: k.L, TermAll: k.TermAll, BigData: i%10 == 0, MaxBig: 6, Variants: i%5 == 4}
+	many := i%50 == 26 // more layers than the tag-tree placeholder 999
+	if many {
+		k.L = r.Pick(1000, 1001, 1003)
+	}
+	o := blkOpts{L: k.L, TermAll: k.TermAll, BigData: i%20 == 0, MaxBig: 25, Variants: i%5 == 4, Light: many}
 	nb := r.Range(1, 3)
+	if many {
+		nb = 1
+	}
 	for b := 0; b < nb; b++ {
 		bs := bandSpec{Band: b + 1, W: r.Range(1, 5), H: r.Range(1, 4)}
 		if nb == 1 {
@@ -288,6 +305,9 @@ func genHdrCase(r *Rand, i int) hdrCase {
 			bs.W, bs.H = 0, 0 // empty band
 		case 1:
 			bs.W, bs.H = 1, 1
+		}
+		if many {
+			bs.W, bs.H = r.Range(1, 2), r.Range(1, 2)
 		}
 		subset := r.Intn(6) == 0
 		for y := 0; y < bs.H; y++ {
@@ -375,7 +395,7 @@ func dBandsArg(dims [][2]int, positions [][][2]int) string {
 
 func suiteHeader(c *Ctx) {
 	rng := c.Rng.Fork()
-	refs := caseRefs(c, rng, c.N(1500, 30000), "t2:header:rt", "t2:header:enc", "t2:header:dec")
+	refs := caseRefs(c, rng, c.N(1000, 15000), "t2:header:rt", "t2:header:enc", "t2:header:dec")
 	n := len(refs)
 	ParallelFor(n, c.Work, func(i int) {
 		k := genHdrCase(NewRand(refs[i].GSeed), refs[i].I)
@@ -392,6 +412,17 @@ func suiteHeader(c *Ctx) {
 			for _, b := range k.Bands[bi].Blocks {
 				nblocks++
 				rtok = rtok && b.rtOK()
+				if b.Single {
+					flags["hdr.single_layer_fallback_block"] = true
+				}
+				if len(b.Passes) > 0 {
+					flags["hdr.block_with_cb_passes"] = true
+					for pi, p := range b.Passes {
+						if p[2] != 0 && pi+1 < len(b.Passes) {
+							flags["hdr.terminated_pass_no_termall"] = true
+						}
+					}
+				}
 				if !b.Single {
 					if b.First >= 2 && b.First < k.L {
 						flags["late_inclusion"] = true
@@ -420,6 +451,9 @@ func suiteHeader(c *Ctx) {
 		}
 		if k.Weird {
 			dist = append(dist, "hdr.weird_layer_sequence")
+		}
+		if k.L >= 999 {
+			dist = append(dist, "hdr.layers_ge_999")
 		}
 		key := fmt.Sprintf("hdr:%s:%s", Ints(k.Layers), arg)
 		if len(key) > 300 {
@@ -464,7 +498,7 @@ func suiteHeader(c *Ctx) {
 		if endsFF {
 			c.R.Count("hdr_ends_ff")
 		}
-		c.CorrEq("t2:header:enc", "t2:header:enc", c.M.Call("t2_hdr_enc", Ints(k.Layers), arg), joinOr(implParts, "#", "_"), in)
+		c.CorrEq("t2:header:enc", "t2:header:enc", mcall(c, "t2_hdr_enc", Ints(k.Layers), arg), joinOr(implParts, "#", "_"), in)
 
 		// ---- decoder on header ++ body ++ random tail, state persisting over the layers
 		dims := make([][2]int, len(k.Bands))
@@ -525,7 +559,7 @@ func suiteHeader(c *Ctx) {
 		if len(steps) > 0 {
 			presets := strings.TrimSuffix(strings.Repeat("-|", len(dims)), "|")
 			din := map[string]interface{}{"bands": dBandsArg(dims, positions), "steps": clipArg(strings.Join(steps, "#")), "enc": in}
-			c.CorrEq("t2:header:dec", "t2:header:dec", c.M.Call("t2_hdr_dec", dBandsArg(dims, positions), presets, strings.Join(steps, "#")), joinOr(dparts, "#", "_"), din)
+			c.CorrEq("t2:header:dec", "t2:header:dec", mcall(c, "t2_hdr_dec", dBandsArg(dims, positions), presets, strings.Join(steps, "#")), joinOr(dparts, "#", "_"), din)
 		}
 
 		// ---- oracle (Go alone): decoding the layers in order returns what the encoder recorded
